@@ -17,7 +17,7 @@ META = dict(
     "raising listener; events: single, two per read, split across reads, empty body, non-JSON body; (thorough) a listener that unregisters itself}; oracle: after every "
     "successful secure (re)connection the accessory's per-session ev registrations include pairing.subscriptions unless a subscription request was cut off, every listener "
     "saw the {} 'back' callback, every event reaches every then-registered listener exactly once in order keyed (aid,iid), a raising listener neither starves others nor "
-    "closes the transport",
+    "closes the transport Also: accessories that refuse one characteristic of a request (207 with a row per characteristic), every block boundary inside an EVENT x HTTP style x {one read, two reads} followed by a second event, and configurations under byte-wise reads / reads ending inside a block / chunked lower-case HTTP.",
     note="bounded depth D; the accessory model registers ev per session as HAP specifies and never pushes events on its own",
     design_ref="DESIGN.md §4 C12",
     rule="state = canonical (subscriptions, accessory registrations, listeners, logs, flags); transition = one history symbol; execution = maximal path",
